@@ -219,7 +219,7 @@ def run_crash_case(spec: dict, seed: int, kind: str = "memory", crash_at: list[i
     res = CaseResult(spec=spec, seed=seed, kind=kind, crash_at=list(crash_at))
     res.trace = run.trace
     externals = [dict(e) for e in spec.get("externals", [])]
-    state: dict[str, Any] = {"st": None, "quiet": 0, "tasks": [], "crashed": False}
+    state: dict[str, Any] = {"st": None, "quiet": 0, "tasks": [], "crashed": False, "work_ticks": 0}
 
     def hook_factory(loop: VLoop) -> Callable[[], bool]:
         def hook() -> bool:
@@ -229,7 +229,12 @@ def run_crash_case(spec: dict, seed: int, kind: str = "memory", crash_at: list[i
             options: list[tuple[str, Any]] = [("gate", k) for k in list(run.waiting)]
             if not state["crashed"]:
                 for i, ext in enumerate(externals):
-                    if ext.get("after_quiet", 0) <= state["quiet"] and ext.get("phase", 0) == len(res.phases) - 1:
+                    if "after_work_ticks" in ext:
+                        # any process lifetime: once the run has persisted that many ticks other than idle checks
+                        if state["work_ticks"] >= ext["after_work_ticks"] and not run.waiting:
+                            options.append(("ext", i))
+                            break  # externals of this kind are delivered in list order
+                    elif ext.get("after_quiet", 0) <= state["quiet"] and ext.get("phase", 0) == len(res.phases) - 1:
                         options.append(("ext", i))
             state["quiet"] += 1
             if not options:
@@ -268,6 +273,9 @@ def run_crash_case(spec: dict, seed: int, kind: str = "memory", crash_at: list[i
         counts: dict[str, int] = type(view)._verif_ctl["count"]
 
         def _note_append(run_id: str, n: int) -> None:
+            last = next((c for c in reversed(run.trace.calls) if c.caller == "_process_tick"), None)
+            if last is not None and type(last.tick).__name__ != "TickIdleCheck":
+                state["work_ticks"] += 1
             if run_id == res.run_id or res.run_id is None:
                 res.appends.append((n, sum(1 for c in run.trace.calls if c.caller == "_process_tick"), len(run.trace.stream)))
 
@@ -329,6 +337,7 @@ def run_crash_case(spec: dict, seed: int, kind: str = "memory", crash_at: list[i
             newp.result_at_start = h[0].result if h else None
             newp.error_at_start = h[0].error if h else None
             newp.active_after_start = rid in st.persistence._active_run_ids
+            state["crashed"] = False
         set_tick_hook(st.store, _note_append)
         waited = 0.0
         while waited < horizon:
@@ -401,9 +410,17 @@ def volatile_at_crash(run: Any, phase: Phase, mid_tick: bool = True) -> dict:
     mail = [p[0] for p in run.trace.puts[phase.puts_from:] if id(p[0]) not in processed and id(p[0]) not in in_buf]
     st = calls[-1].after if calls and calls[-1].after is not None else None
     inflight = 0
+    req_waiters = 0
     if st is not None:
         inflight = sum(len(w.in_progress) + len(w.queue) for w in st.workers.values())
+        req_waiters = sum(1 for w in st.workers.values() for x in w.collected_waiters if x.requirements and x.resolved_event is None)
+    from workflows.runtime.types import results as RR
+
+    req_logged = sum(1 for c in calls if isinstance(c.tick, T.TickStepResult)
+                     for x in c.tick.result if isinstance(x, RR.AddWaiter) and x.requirements)
     return {
+        "req_waiters": req_waiters,
+        "req_waiters_logged": req_logged,
         "buffer": [type(t).__name__ for t in buf if not isinstance(t, T.TickIdleCheck)] + ["cmd:" + type(c).__name__ for c in pending_cmds],
         "buffer_events": [getattr(getattr(t, "event", None), "uid", None) for t in buf if isinstance(t, T.TickAddEvent)]
                          + [getattr(c.event, "uid", None) for c in pending_cmds],
